@@ -2,11 +2,13 @@
 pub mod asmcheck;
 pub mod codegen;
 pub mod e2e;
+pub mod format;
 pub mod heapbfs;
 pub mod runtime;
 pub mod selftest;
 pub mod stages;
 pub mod subst;
+pub mod typecheck;
 
 use crate::framework::*;
 use crate::pipeline::Arch;
@@ -32,6 +34,8 @@ pub fn run_worker(check: &str, ctx: &WorkerCtx, _extra: &[String]) -> Report {
         "C10" => heap_worker(ctx, true),
         "C11" => subst::worker(ctx),
         "C14" => asmcheck::worker(ctx),
+        "C15" => typecheck::worker(ctx),
+        "C16" => format::worker(ctx),
         "C20" => runtime::worker(ctx),
         "C13" => {
             let mut r = codegen::worker(ctx, Arch::X86, codegen::Mode::CallConv);
@@ -270,6 +274,26 @@ pub fn run_check(id: &str, tier: Tier) -> i32 {
             };
             finish(&meta, tier, started, rep, Map::new())
         }
+        "C15" => {
+            let rep = run_sharded(id, tier, &[]);
+            let meta = CheckMeta {
+                property: "C15",
+                level: "exploration",
+                rule: "(+) every program of the Fun families plus polymorphic declarations at several instances, nested instances, covariable parameters and shadowing must be accepted by the real checker; (-) for every base program (all focused-family programs, a 1/40 (quick) or 1/4 (thorough) slice of FUN-S) every applicable site x 24 single-edit classes (argument count +-1 in call/constructor/destructor, wrong-type operand, unbound variable/covariable/definition/constructor/destructor/type, missing/extra/duplicated clause, extra/missing binder, extra/missing type argument, constructor at i64, cocase at a data type, literal at a declared type) and the program-level edits (duplicate definition/parameter/type/constructor/destructor, variable where a covariable is required) is applied to the parsed tree and handed to Program::check, which must return an error. Distinct = distinct printed mutants.".into(),
+                assumptions: vec!["each edit class is ill-typed by construction (no typing derivation exists for the edited tree)".into()],
+            };
+            finish(&meta, tier, started, rep, Map::new())
+        }
+        "C16" => {
+            let rep = run_sharded(id, tier, &[]);
+            let meta = CheckMeta {
+                property: "C16",
+                level: "exploration",
+                rule: "G-TEXT: every term form (literals incl. negative, variable, 5 operators, 6 comparisons in two-operand / zero-right / zero-left form, let, call, constructor, case with 0..3 clauses, destructor with/without type arguments and arguments, cocase with 0..2 clauses, label, goto, exit, print, println, parentheses) nested in every operand slot of every term form (depth 2 quick, depth 3 thorough), comparison spellings with -0 / missing spaces / parenthesised zero, destructor and case chains, all declaration forms, and the repository's own .sc files. Only texts the real parser accepts are used; the tree is obtained by parsing. For every (width, indent) in 1..60+{70..200} x {0,1,2,4,8} (quick) / 1..200 x 0..8 (thorough) the program is printed by the repository's printer; every distinct rendering is re-parsed: the tree must be equal (spans ignored) and printing again must give the same text. A slice goes through the real `scc fmt --inplace`. Distinct = distinct accepted source texts.".into(),
+                assumptions: vec!["tree equality is the repository's derived PartialEq with source positions ignored".into()],
+            };
+            finish(&meta, tier, started, rep, Map::new())
+        }
         "C20" => {
             let rep = run_sharded(id, tier, &[]);
             let meta = CheckMeta {
@@ -333,6 +357,21 @@ pub fn replay(id: &str, path: &str) -> i32 {
             }
             Ok(None) => {
                 println!("[{id}] replay: executable behaves like the source");
+                0
+            }
+            Err(e) => {
+                eprintln!("replay failed: {e}");
+                2
+            }
+        },
+        Some("fmt") => match format::replay(case) {
+            Ok(Some(msg)) => {
+                println!("[{id}] replay: {msg}");
+                println!("VIOLATION property={id} replay={path}");
+                1
+            }
+            Ok(None) => {
+                println!("[{id}] replay: no violation");
                 0
             }
             Err(e) => {
